@@ -132,6 +132,51 @@ FAMILY = {
                         'type A { n: int64 { constraint pos } }'),
 }
 
+# members whose second module shadows std names used (unqualified in the
+# source) by the first one: the described text must stay self-contained
+SHADOW = {
+    # In each member module `other` defines an object that shadows a std
+    # name, plus a type O that uses it (so the shadowing object is created
+    # before O); `default` depends on other::O (so O, and hence the shadowing
+    # object, exists before default's declarations are replayed) and uses
+    # the std name unqualified in the position under test.
+    'SH_fn': D('type A { name: str; o: other::O; '
+               'property up := str_upper(.name); }',
+               other='function str_upper(s: str) -> str using ("x"); '
+               'type O { property p := str_upper("a"); }'),
+    'SH_type': D('type B { o: Object; x: other::O; }',
+                 other='type Object { n: int64; } type O { o: Object; }'),
+    'SH_scalar': D('type A { n: int64; o: other::O; }',
+                   other='scalar type int64 extending str; '
+                   'type O { n: int64; }'),
+    'SH_kwarg': D('function mk(named only prefix: str) -> str using '
+                  '(prefix); type A { name: str; o: other::O; '
+                  'property t := mk(prefix := str_trim(.name)); }',
+                  other='function str_trim(s: str) -> str using ("z"); '
+                  'type O { property p := str_trim("a"); }'),
+    'SH_cast': D('type A { name: str; o: other::O; '
+                 'property n := <int64>.name; }',
+                 other='scalar type int64 extending str; '
+                 'type O { n: int64; }'),
+    'SH_default': D('type A { o: other::O; '
+                    'name: str { default := str_lower("X") } }',
+                    other='function str_lower(s: str) -> str using ("q"); '
+                    'type O { property p := str_lower("a"); }'),
+    'SH_con': D('type A { o: other::O; name: str { constraint expression on '
+                '(len(__subject__) > 0) } }',
+                other='function len(s: str) -> int64 using (0); '
+                'type O { property p := len("a"); }'),
+    'SH_policy': D('type A { name: str; o: other::O; access policy p '
+                   'allow all using (str_lower(.name) ?= "x"); }',
+                   other='function str_lower(s: str) -> str using ("q"); '
+                   'type O { property p := str_lower("a"); }'),
+    'SH_fnbody': D('type A { o: other::O; } '
+                   'function f(a: A) -> str using (str_lower("X"));',
+                   other='function str_lower(s: str) -> str using ("q"); '
+                   'type O { property p := str_lower("a"); }'),
+}
+FAMILY.update(SHADOW)
+
 QUICK = ['empty', 'A', 'A_req', 'A_excl', 'A_multi', 'A_idx', 'A_comp',
          'A_ren', 'A_int', 'B_only', 'AB_link', 'AB_mlink', 'AB_back',
          'AB_inh', 'S_enum', 'A_tcon', 'C_3bases', 'C_1base', 'C_4bases',
